@@ -71,12 +71,14 @@ structure Inv (w : World) : Prop where
   func : ∀ fd a b, (fd, a) ∈ w.table → (fd, b) ∈ w.table → a = b
   owns : ∀ o ∈ w.objs, o.closed = false → ∀ fd ∈ o.fds, (fd, o.id) ∈ w.table
   uniq : ∀ o ∈ w.objs, ∀ o' ∈ w.objs, o.id = o'.id → o = o'
+  back : ∀ fd a, (fd, a) ∈ w.table → ∃ o ∈ w.objs, o.id = a ∧ o.closed = false ∧ fd ∈ o.fds
   log  : ∀ e ∈ w.log, e.owner = some e.obj
 
 theorem inv_init : Inv ({} : World) where
   func := by intro fd a b h; cases h
   owns := by intro o h; cases h
   uniq := by intro o h; cases h
+  back := by intro fd a h; cases h
   log := by intro e h; cases h
 
 theorem ownerOf_eq {w : World} (hI : Inv w) {fd k : Nat} (h : (fd, k) ∈ w.table) : ownerOf w fd = some k := by
@@ -127,7 +129,7 @@ theorem step_inv (w w' : World) (op : Op) (hI : Inv w) (h : step true w op = som
         simp only [List.mem_map, Prod.mk.injEq] at hm
         obtain ⟨x, hx, rfl, rfl⟩ := hm
         exact ⟨hx, rfl⟩
-      refine ⟨?_, ?_, ?_, hI.log⟩
+      refine ⟨?_, ?_, ?_, ?_, hI.log⟩
       · intro fd a b ha hb
         simp only [List.mem_append] at ha hb
         rcases ha with ha | ha <;> rcases hb with hb | hb
@@ -153,6 +155,13 @@ theorem step_inv (w w' : World) (op : Op) (hI : Inv w) (h : step true w op = som
         · exact absurd hid.symm (hk o' ho')
         · exact absurd hid (hk o ho)
         · exact hI.uniq o ho o' ho' hid
+      · intro fd a hm
+        simp only [List.mem_append] at hm
+        rcases hm with hm | hm
+        · obtain ⟨hfd, rfl⟩ := hnew fd a hm
+          exact ⟨_, List.mem_cons_self, rfl, rfl, hfd⟩
+        · obtain ⟨o, ho, h1, h2, h3⟩ := hI.back fd a hm
+          exact ⟨o, List.mem_cons_of_mem _ ho, h1, h2, h3⟩
   | close k =>
     simp only [step] at h
     cases hg : getObj w k with
@@ -168,7 +177,7 @@ theorem step_inv (w w' : World) (op : Op) (hI : Inv w) (h : step true w op = som
           | false => rfl
           | true => simp [hcl] at hc
         cases h
-        refine ⟨?_, ?_, ?_, ?_⟩
+        refine ⟨?_, ?_, ?_, ?_, ?_⟩
         · intro fd a b ha hb
           exact hI.func fd a b (List.mem_filter.1 ha).1 (List.mem_filter.1 hb).1
         · intro x hx hxc fd hfd
@@ -199,6 +208,20 @@ theorem step_inv (w w' : World) (op : Op) (hI : Inv w) (h : step true w op = som
             · exact hid
             · exact hid
           rw [hI.uniq y hy y' hy' hyy]
+        · intro fd a hm
+          obtain ⟨hm, hnc⟩ := List.mem_filter.1 hm
+          obtain ⟨y, hy, h1, h2, h3⟩ := hI.back fd a hm
+          have hyk : (y.id == k) = false := by
+            cases hyk : y.id == k with
+            | false => rfl
+            | true =>
+              exfalso
+              have : y = o := hI.uniq y hy o hom ((by simpa using hyk : y.id = k).trans hoid.symm)
+              rw [this] at h3
+              simp only [Bool.not_eq_true'] at hnc
+              have : o.fds.contains fd = true := by simpa using h3
+              rw [this] at hnc; cases hnc
+          refine ⟨_, List.mem_map.2 ⟨y, hy, rfl⟩, ?_, ?_, ?_⟩ <;> simp only [hyk] <;> first | exact h1 | exact h2 | exact h3
         · intro e he
           simp only [List.mem_append, List.mem_map] at he
           rcases he with he | ⟨fd, hfd, rfl⟩
